@@ -125,4 +125,13 @@ REFACTORS = [
      "csv writer used without a local", ["C12"]),
     ("graphtage.py", [("            return Match(self, node, levenshtein_distance(str(self.object), str(node.object)))", "            distance = levenshtein_distance(str(self.object), str(node.object))\n            return Match(self, node, distance)")],
      "leaf cost through a local", ["C02"]),
+    ("printer.py", [("        self._state_before = set(self.writer.marks)\n", "        snapshot = set(self.writer.marks)\n        self._state_before = snapshot\n"),
+                    ("        for mark in self.marks - self._state_before:\n", "        added = self.marks - self._state_before\n        for mark in added:\n")],
+     "mark snapshot and released set through locals", ["C13"]),
+    ("levenshtein.py", [("make definitive\n                    while self.edit_matrix[row][col].tighten_bounds():\n", "make definitive\n                    last_cell = self.edit_matrix[row][col]\n                    while last_cell.tighten_bounds():\n")],
+     "last cell through a local", ["C03", "C05"]),
+    ("yaml.py", [("        if len(documents) == 0:\n", "        if not documents:\n")],
+     "emptiness of the document list tested by truth value (a list of documents, not a document)", ["C09"]),
+    ("matching.py", [("        ), max_edge) + 1\n", "        ), max_edge) + 2\n")],
+     "sentinel margin 2 instead of 1", ["C15"]),
 ]
